@@ -336,6 +336,8 @@ def _main(prop, tier, seed, nproc, spec, tmpdir, t_start):
             ljobs = []
             for callee in sorted(pending):
                 done.add(callee)
+                if any(callee.endswith(a) for a in spec.get('assumed_contracts', ())):
+                    continue        # stated as an assumption in the evidence: no lemma is run for it
                 if callee == 'compose/decompose round trip':
                     h = 'vh_lemma_compose'
                 else:
